@@ -57,7 +57,7 @@ def _rx(pat, text, extra=0):
 
 def holds(atom, sp):
     """Documented meaning of one operator on a flow specification: True / False / None (documentation silent)."""
-    op, arg, t = atom["op"], atom.get("arg"), sp["type"]
+    op, arg, t = atom["op"] or "u", atom.get("arg"), sp["type"]   # a bare regex is "equivalent to ~u regex"
     http = t == "http"
     # operators about the flow as such: every type
     if op == "all":
@@ -218,16 +218,19 @@ POOL_ATOMS = [A("http", None, "", {}), A("tcp", None, "", {}), A("udp", None, ""
               A("b", "needle", "", {}), A("bq", "needle1", "", {}), A("bs", "needle2|reply", "", {}),
               A("u", "alpha", "", {}), A("d", "example", "", {}), A("c", 404, "", {}), A("c", 200, "", {}),
               A("dst", ":53$", "", {}), A("comment", "^a note$", "", {}), A("m", "^post$", "", {}),
-              A("hq", "x-req: one", "", {}), A("h", "two$|srv", "", {})]
+              A("hq", "x-req: one", "", {}), A("h", "two|srv", "", {}), A("hs", "^x-resp: two$", "", {}),
+              A("hs", "^server", "", {})]
 # regex written in quotes although it contains a backslash escape (random driver only)
-QUOTED_BACKSLASH = [A("u", "al\\w+a", "url", {"path": "/x/alpha"}), A("hq", "x-req:\\s+one", "req_header", {"req_headers": [["X-Req", "one"]]}),
-                    A("d", "example\\.com$", "host", {"host": "example.com"}), A("bq", "needle\\d", "req_body", {"req_body": "needle1"})]
+QUOTED_BACKSLASH = [dict(x, quote_anyway=True) for x in [A("u", "al\\w+a", "url", {"path": "/x/alpha"}), A("hq", "x-req:\\s+one", "req_header", {"req_headers": [["X-Req", "one"]]}),
+                    A("d", "example\\.com$", "host", {"host": "example.com"}), A("bq", "needle\\d", "req_body", {"req_body": "needle1"})]]
 
 
 def compatible(atoms):
     dims = [a["dim"] for a in atoms]
     if len(set(dims)) != len(dims):
         return False
+    if "ws" in dims and {"req_body", "resp_body"} & set(dims):
+        return False  # bodies of WebSocket flows are not specified
     return not ("resp" in dims and NEEDS_RESP & set(dims))
 
 
@@ -261,6 +264,8 @@ def atom_text(a, style, sep=" "):
     if a["op"] == "c":
         return "~c" + sep + str(a["arg"])
     arg = a["arg"]
+    if "\\" in arg and can_be_bare(arg) and not a.get("quote_anyway"):
+        style = "bare"  # a backslash inside quotes is eaten by flowfilter (finding "quoted_backslash"): only on purpose
     if style == "bare" and not can_be_bare(arg):
         style = "dq"
     if style == "dq":
@@ -391,6 +396,8 @@ def ref_parse(text, atoms):
             pos += 1
             if arg[0] == "str" and arg[3]:
                 flags.add("quoted_backslash")
+            if op in ("h", "hq", "hs") and re.search(r"(?<!\\)\$", arg[1]):
+                flags.add("header_end_anchor")
             return ["a", lookup(op, arg[1])]
         raise RefError(f"unknown operator ~{op}")
 
@@ -447,7 +454,7 @@ def ref_parse(text, atoms):
 
 def features(flags):
     fparse = next((f for f in ("unary_before_rparen", "juxtaposition_in_group") if f in flags), "plain")
-    feval = next((f for f in ("quoted_backslash", "juxtaposition_beside_or") if f in flags), "plain")
+    feval = next((f for f in ("quoted_backslash", "juxtaposition_beside_or", "header_end_anchor") if f in flags), "plain")
     return fparse, feval
 
 
@@ -525,7 +532,7 @@ class Check(core.PropertyCheck):
         "the flow; flows where the documentation is silent for an operator (DNS body/URL, WebSocket bodies) are skipped",
         "inside quotes only the backslash before the quote character is an escape; other backslashes belong to the regex",
     )
-    PROCS = 4
+    PROCS = 6
 
     def mon_constants(self, tier):
         return {}
@@ -536,10 +543,14 @@ class Check(core.PropertyCheck):
                 "JuxtLowest": True, "JuxtInGroup": False, "UnaryAtRparen": False}
 
     def model_runs(self, ctx):
-        small = ctx.model_check(self.MODEL, self.model_constants("quick"), dump=True)
+        # the generator's state graph is a tree (the token sequence is part of the state): the dumped instance holds
+        # every text with up to two atom occurrences; three occurrences are counted exhaustively in the thorough tier
+        # and sampled by tlc -simulate in both (scenarios())
+        small = ctx.model_check(self.MODEL, dict(self.model_constants("quick"), MaxAtoms=2), dump=True, invariants=())
         if ctx.quick:
             return [small]
-        big = ctx.model_check(self.MODEL, dict(self.model_constants("thorough"), MaxAtoms=4), dump=False, tag="_big")
+        big = ctx.model_check(self.MODEL, self.model_constants("quick"), dump=False, tag="_big", invariants=(),
+                              timeout=2400)
         return [small, big]
 
     @staticmethod
@@ -597,16 +608,16 @@ class Check(core.PropertyCheck):
     def scenarios(self, ctx, models):
         rng = random.Random(ctx.seed + 42)
         kinds = self.model_constants(ctx.tier)["AtomKind"]
-        behs, total = self._complete(models[0].graph, ctx.rng, 2500 if ctx.quick else 40000)
+        behs, total = self._complete(models[0].graph, ctx.rng, 500 if ctx.quick else 5000)
         ctx.notes["complete_expressions_in_graph"] = total
         for b in behs:
             yield self._scenario(rng, b, kinds, "model")
-        simc = dict(self.model_constants("thorough"), MaxAtoms=5 if ctx.quick else 6, MaxDepth=3)
-        sims, _ = ctx.simulate(self.MODEL, simc, num=600 if ctx.quick else 8000, depth=40)
+        simc = dict(self.model_constants("thorough"), MaxAtoms=4 if ctx.quick else 5, MaxDepth=2)
+        sims, _ = ctx.simulate(self.MODEL, simc, num=250 if ctx.quick else 3000, depth=40)
         for b in sims:
             if b[-1][0] == "Finish":
                 yield self._scenario(rng, b, kinds, "simulate")
-        for _ in range(500 if ctx.quick else 10000):
+        for _ in range(200 if ctx.quick else 3000):
             yield core.Scenario(self._random(rng), source="random")
 
     # -- random driver: free-form expressions (more atoms, deeper, every operator, dependent atoms, every flow type)
@@ -654,7 +665,7 @@ class Check(core.PropertyCheck):
             if r < 0.2:
                 uses.add("not")
                 return "!" + rng.choice(["", " "]) + unary(d)
-            if r < 0.45 and d < 3:
+            if r < 0.45 and d < 2:  # deeper nesting: flowfilter.parse needs seconds to minutes (no packrat)
                 uses.update({"group"})
                 pad = rng.random() < 0.6
                 uses.add("padded_group" if pad else "tight_group")
@@ -694,7 +705,7 @@ class Check(core.PropertyCheck):
                 ev.pop("text", None)
                 ev["uses"] = sorted(u for u in ev["uses"] if u in MODEL_USES)
             elif ev["k"] == "verdicts":
-                n = sum(1 for k in ev["kinds"] if k == "http")
-                ev.pop("kinds")
+                n = 2 ** len(ev["facts"][0]) if ev["facts"] else 0   # the table flows come first; pool flows follow
+                ev = {"k": "verdicts", "got": ev["got"][:n], "facts": ev["facts"][:n]}
             out.append(ev)
         return out
